@@ -90,7 +90,7 @@ def prepare(inst, work, mutant=None):
             raise Machinery("slice source missing: " + s["file"])
         try:
             if "region_start" in s:
-                r = slicer.extract_region(path, s["region_start"], s["region_end"])
+                r = slicer.extract_region(path, s["region_start"], s["region_end"], nth=s.get("nth", 0))
             else:
                 r = slicer.extract(path, s["sig"], s.get("nth", 0))
         except slicer.SliceError as e:
